@@ -3,13 +3,47 @@ package main
 import (
 	"encoding/json"
 	"fmt"
+	"math/rand"
 	"os"
+	"strings"
 
 	"verifharness/props/c17"
 )
 
-// usage: dbg '<json program>'
+// usage: dbg '<json program>'   |   dbg search <maxlen> <tries> <uniq:0|1>
 func main() {
+	if os.Args[1] == "search" {
+		var maxLen, tries, uq int
+		fmt.Sscan(os.Args[2], &maxLen)
+		fmt.Sscan(os.Args[3], &tries)
+		fmt.Sscan(os.Args[4], &uq)
+		best := map[string]*c17.Program{}
+		rnd := rand.New(rand.NewSource(12345))
+		for t := 0; t < tries; t++ {
+			n := 4 + rnd.Intn(maxLen-3)
+			p := &c17.Program{Cfg: c17.Config{Variant: "owned", ReqSlot: 2, Unique: uq == 1, Balance: true, KeyKind: "int"}, Class: "search", WalkEvery: 1}
+			nk := 6 + rnd.Intn(10)
+			for i := 0; i < n; i++ {
+				k := c17.KeyOf(1 + rnd.Intn(nk))
+				if rnd.Intn(100) < 70 {
+					p.Ops = append(p.Ops, c17.Op{Kind: c17.OpAdd, K: k, V: i + 1})
+				} else {
+					p.Ops = append(p.Ops, c17.Op{Kind: c17.OpRemove, K: k, V: i + 1})
+				}
+			}
+			res := c17.Exec("C17", p, nil)
+			if res.Fail == nil || !strings.Contains(res.Fail.Sig, "insert@") {
+				continue
+			}
+			p.Ops = p.Ops[:res.Fail.OpIndex+1]
+			small, _ := c17.Shrink(p, res.Fail.Sig, func(q *c17.Program) *c17.Failure { return c17.Exec("C17", q, nil).Fail }, 400)
+			if b := best[res.Fail.Sig]; b == nil || len(small.Ops) < len(b.Ops) {
+				best[res.Fail.Sig] = small
+				fmt.Println(res.Fail.Sig, len(small.Ops), small.Strings())
+			}
+		}
+		return
+	}
 	var p c17.Program
 	if err := json.Unmarshal([]byte(os.Args[1]), &p); err != nil {
 		panic(err)
